@@ -14,6 +14,7 @@ extern "C" {
 }
 
 extern int g_verbose;
+void huge64_check(RunResult &res, bool builder, uint64_t seed);
 
 // ---------------------------------------------------------------- generator
 void gen_writer_cfg(Plan &p, Rng &r, bool allow_pool, bool allow_wfrag, bool allow_prefix)
@@ -212,6 +213,9 @@ static Plan gen_table(const std::string &prop, const std::string &tier, uint64_t
 		p.seti("chk_roundtrip", 1);
 		gen_queries(p, r, (int)r.below(20));
 		gen_iter_history(p, r, (int)r.below(60));
+		// the > 4 GiB restart-array branch: a hand-built sparse block now and then; once per thorough batch the real block_builder
+		if (r.chance(1, thorough ? 400 : 1500)) p.op("huge64", { "sparse", std::to_string(r.below(100000)) });
+		if (thorough && run == 11) p.op("huge64", { "builder", std::to_string(r.below(100000)) });
 	}
 	return p;
 }
@@ -503,6 +507,8 @@ static RunResult exec_table(const Plan &p)
 		if (o.name == "add") continue;
 		if (res.viol) break;
 		if (cl.op(o, opi)) {
+		} else if (o.name == "huge64") {
+			huge64_check(res, o.arg(0) == "builder", (uint64_t)o.argi(1));
 		} else if (o.name == "dump") {
 			std::vector<std::string> av{ tool_path("mtbl_dump"), "-x" };
 			Bytes kp, vp; bool hk = false, hv = false;
